@@ -9,6 +9,7 @@ let () =
   | [ _; "path"; path ] -> Drv_path.run path
   | [ _; "udp"; path ] -> Drv_udp.run path
   | [ _; "fsmodel"; path ] -> Drv_fsmodel.run path
+  | [ _; "crc"; path ] -> Drv_crc.run path
   | _ ->
       prerr_endline "usage: driver <component> <ops>";
       exit 2
